@@ -47,6 +47,8 @@
 
 /* A server that keeps answering 401/438 must not keep gathering alive forever */
 #define NICE_DISCOVERY_MAX_AUTH_RETRIES 5
+/* ... nor must a chain of 300 (Try Alternate) answers that never ends */
+#define NICE_DISCOVERY_MAX_REDIRECTS 5
 
 typedef struct
 {
@@ -57,6 +59,7 @@ typedef struct
   gboolean pending;         /* is discovery in progress? */
   gboolean done;            /* is discovery complete? */
   guint auth_retries;       /* requests re-sent after a 401/438 answer */
+  guint redirects;          /* ALTERNATE-SERVER answers followed so far */
   guint stream_id;
   guint component_id;
   TurnServer *turn;
